@@ -6,7 +6,7 @@ for ln in open(sys.argv[1]):
     e = d.pop("e")
     if e == "Reset":
         print(json.dumps({"n": "Reset", "cfg": d["cfg"]}))
-    elif e in ("Eval", "Define", "Usage", "HelpArg", "Split"):
+    elif e in ("Eval", "Define", "Usage", "HelpArg", "Split", "UsageLayout"):
         for k in ("out", "dest", "what", "res", "entries", "stray", "toks", "unknown", "words", "argc", "nullterm", "prog0"):
             d.pop(k, None)
         d["n"] = e
